@@ -7562,12 +7562,20 @@ class TensorDictBase(MutableMapping):
         """
         if start_dim < 0:
             start_dim = self.ndim + start_dim
+            if start_dim < 0:
+                raise ValueError(
+                    f"Incompatible start_dim {start_dim} for tensordict with shape {self.shape}."
+                )
         if end_dim < 0:
             end_dim = self.ndim + end_dim
             if end_dim < 0:
                 raise ValueError(
                     f"Incompatible end_dim {end_dim} for tensordict with shape {self.shape}."
                 )
+        if end_dim >= self.ndim:
+            raise ValueError(
+                f"Incompatible end_dim {end_dim} for tensordict with shape {self.shape}."
+            )
         if end_dim <= start_dim:
             raise ValueError(
                 "The end dimension must be strictly greater than the start dim."
